@@ -19,12 +19,12 @@ Inductive mech :=
 | MMx (d : option bytes) (c4 c6 : N)
 | MPtr (d : option bytes)
 | MIp4 (net len : N)
-| MIp6 (net len : N)
+| MIp6 (net len : N) (short : bool)
 | MExists (d : bytes).
 Inductive term := TDir (q : qual) (m : mech) | TRedirect (d : bytes) | TExp (d : bytes) | TUnknown.
 
 (* ------------------------------------------------------------------ the grammar *)
-(** [strict]: leave out (RSkip / unparseable) what the known deviations of qsmtpd/spf.c concern
+(** [strict] (a switch of the evaluator below): answer RSkip where the known deviations of qsmtpd/spf.c are met
     (F-C11-2, -10, -11, -12, -13 and case-sensitive ptr): with [strict = true] the evaluator below
     is the class for which agreement with Model/Spf.v is PROVED (Proofs/SpfAgree.v); with
     [strict = false] it is plain RFC 7208. *)
@@ -109,13 +109,10 @@ Definition KW_PTR : bytes := [112; 116; 114].
 Definition KW_MX : bytes := [109; 120].
 Definition KW_A : bytes := [97].
 
-Section Grammar.
-Variable strict : bool.
-
 (** "ip4:" / "ip6:" network [ "/" length ].  The text of an IPv4 network has 7..15 characters
     (digits and dots), that of an IPv6 network at most 45 (hex digits, colons, dots): implied by
-    inet_pton() accepting it, stated to have it at hand.  With [strict]: no length below 8
-    (F-C11-2), no address text shorter than 3 = "::" (F-C11-13). *)
+    inet_pton() accepting it, stated to have it at hand.  An IPv6 text shorter than 3 characters
+    ("::") is marked: qsmtpd/spf.c rejects it (F-C11-13). *)
 Definition parse_ip4 (arg : bytes) : option mech :=
   let a := take_while not_slash arg in
   let r := drop_while not_slash arg in
@@ -126,7 +123,7 @@ Definition parse_ip4 (arg : bytes) : option mech :=
       match r with
       | [] => Some (MIp4 (octets_to_N o) 32)
       | _ :: n => match cidr_num n 32 with
-                  | Some v => if strict && (v <? 8) then None else Some (MIp4 (octets_to_N o) v)
+                  | Some v => Some (MIp4 (octets_to_N o) v)
                   | None => None
                   end
       end
@@ -135,14 +132,13 @@ Definition parse_ip6 (arg : bytes) : option mech :=
   let a := take_while not_slash arg in
   let r := drop_while not_slash arg in
   if negb (forallb ip6_char a && Nat.leb (length a) 45) then None else
-  if strict && Nat.ltb (length a) 3 then None else
   match inet_pton6 a with
   | None => None
   | Some o =>
       match r with
-      | [] => Some (MIp6 (octets_to_N o) 128)
+      | [] => Some (MIp6 (octets_to_N o) 128 (Nat.ltb (length a) 3))
       | _ :: n => match cidr_num n 128 with
-                  | Some v => if strict && (v <? 8) then None else Some (MIp6 (octets_to_N o) v)
+                  | Some v => Some (MIp6 (octets_to_N o) v (Nat.ltb (length a) 3))
                   | None => None
                   end
       end
@@ -217,8 +213,6 @@ Definition parse_record (body : bytes) : option (list term) :=
   | [] => Some []
   | c :: _ => if (c =? 32) && forallb rec_char body then parse_terms (tokens body false) else None
   end.
-
-End Grammar.
 
 Definition is_redirect (t : term) : bool := match t with TRedirect _ => true | _ => false end.
 Definition is_exp (t : term) : bool := match t with TExp _ => true | _ => false end.
@@ -351,8 +345,12 @@ Definition eval_dns_mech (domain : bytes) (m : mech) (cnt : nat) : mout * nat :=
 Definition eval_mech (domain : bytes) (m : mech) (cnt : nat) : mout * nat :=
   match m with
   | MAll => (Match, cnt)
-  | MIp4 net len => (if client_v4 X && ip4_matchnet (s_client X) net len then Match else NoMatch, cnt)
-  | MIp6 net len => (if negb (client_v4 X) && ip6_matchnet (s_client X) net len then Match else NoMatch, cnt)
+  | MIp4 net len =>
+      if strict && (len <? 8) then (Abort RSkip, cnt)                               (* F-C11-2 *)
+      else (if client_v4 X && ip4_matchnet (s_client X) net len then Match else NoMatch, cnt)
+  | MIp6 net len short =>
+      if strict && ((len <? 8) || short) then (Abort RSkip, cnt)                    (* F-C11-2, F-C11-13 *)
+      else (if negb (client_v4 X) && ip6_matchnet (s_client X) net len then Match else NoMatch, cnt)
   | _ =>
       (* 4.6.4: at most 10 terms that cause DNS queries *)
       if Nat.leb 10 cnt then (Abort RLimit, S cnt) else eval_dns_mech domain m (S cnt)
@@ -386,7 +384,7 @@ Definition eval_redirect (ts : list term) (cnt : nat) : rres * nat :=
   end.
 
 Definition eval_record (domain body : bytes) (cnt : nat) : rres * nat :=
-  match parse_record strict body with
+  match parse_record body with
   | None => (RSkip, cnt)
   | Some terms =>
       if Nat.ltb 1 (count_redirect terms) || Nat.ltb 1 (count_exp terms) then (RCode SPF_PERMERROR, cnt)
